@@ -132,6 +132,31 @@ def promoted_array_ints(prog, f, op):
     return None
 
 
+def promoted_str(prog, f, op):
+    """string constant an operand refers to, looking through a promoted `&&str`"""
+    from mir import const_str, peel
+    c = const_str(op)
+    if c is not None:
+        return c
+    o = peel(f.origin_op(op))
+    if o[0] != "const":
+        return None
+    c = const_str(o[1])
+    if c is not None:
+        return c
+    m = re.search(r"promoted\[(\d+)\]", o[1].get("const", ""))
+    if m:
+        owner = f.raw.get("owner") or f.id
+        pf = prog.fn("%s::{promoted#%s}" % (owner, m.group(1)))
+        if pf is not None:
+            for bi, si, st in pf.stmts():
+                if st["k"] == "assign" and st["rv"]["k"] == "use":
+                    c = const_str(st["rv"]["op"])
+                    if c is not None:
+                        return c
+    return None
+
+
 def validator_set(prog, cid):
     """describe a `|v: usize| -> bool` closure: ('set', [..]) for `[..].contains(&v)`, ('gt', n) for `v > n`,
     ('any',) unknown"""
